@@ -960,8 +960,9 @@ func declList(ds []decl) string {
 var (
 	genHosts   = []string{"h.com", "h.com", "h.com", "h.com", "api.h.com"}
 	genSegs    = []string{"keep", "keep", "keep", "keep", "{}", "{}", "{}", "other"}
-	genMethods = []string{"GET", "GET", "POST", "PUT"}
-	reqMethods = []string{"GET", "GET", "POST", "PUT", "DELETE"}
+	// methods are compared as written (a policy declared for GET is not one for get): other spellings are other methods
+	genMethods = []string{"GET", "GET", "POST", "PUT", "get", "Post"}
+	reqMethods = []string{"GET", "GET", "POST", "PUT", "DELETE", "get", "get", "Post", "post"}
 	genValues  = []string{"a", "b", "c", "1", "zz"}
 )
 
